@@ -32,6 +32,9 @@ type gcState struct {
 	// manBlobDelete (C06 only): the blob of a manifest may be deleted through the blob API, which leaves its index
 	// entry behind for the next pass to clean up
 	manBlobDelete bool
+	// noTimeJump (C06, between the first passes and the pass under test): no operation lets hours pass, because the
+	// ticks that would fall into those hours are not emulated there
+	noTimeJump bool
 }
 
 func newGCState(t *rapid.T, st *Stats, forceOld bool) (*gcState, func()) {
@@ -195,6 +198,29 @@ func (g *gcState) mustKeep(rn string) keepSet {
 	for d := range mr.blobs {
 		if g.recent(rn, d) {
 			keep(d, "blob younger than the grace period")
+		}
+	}
+	// "the referrers of a retained subject": the subject need not be a manifest - a digest that is retained as the
+	// config or a layer of a retained image is retained content, and a present manifest naming it as its subject is
+	// its referrer (to a fixed point: the referrer's own content may be the subject of further referrers)
+	for changed := true; changed; {
+		changed = false
+		for _, ad := range sortedKeys(mr.mans) {
+			a := mr.mans[ad]
+			if a.subject == "" || mr.fuzzy[ad] || mr.refFuzzy[a.subject] || childOfPresent[ad] || mr.mans[a.subject] != nil {
+				continue
+			}
+			// (retained as part of a retained manifest - a loose blob that merely is young is nobody's subject yet: the
+			// fixture of Appendix B removes the referrers of a subject that exists only as an unreferenced blob)
+			if why, retained := K.blob[a.subject]; !retained || strings.HasPrefix(why, "blob younger") {
+				continue
+			}
+			if _, done := K.man[ad]; done {
+				continue
+			}
+			walkMan(ad, "referrer of retained content "+short(a.subject), true)
+			g.class("referrer-of-retained-blob")
+			changed = true
 		}
 	}
 	return K
@@ -363,6 +389,9 @@ func (g *gcState) opPushBlob(t *rapid.T) {
 	b := rapid.SampledFrom(blobPool).Draw(t, "blob")
 	d := dig("sha256", b)
 	proto := rapid.SampledFrom([]string{"post", "post", "post+put", "post+patch+put", "post+patch+wait+put"}).Draw(t, "protocol")
+	if g.noTimeJump && proto == "post+patch+wait+put" {
+		proto = "post+patch+put"
+	}
 	_, again := g.repo(rn).blobs[d]
 	var r resp
 	switch proto {
